@@ -119,16 +119,38 @@ func r12_1(c *Ctx, r *Report) {
 				continue
 			}
 			// which end of the measured interval the merged moment is: the receiver of Subtract/SubtractMinute is the end, its argument the start
-			role := ""
-			for _, ref := range *phi.Referrers() {
-				if call, ok := ref.(*ssa.Call); ok && call.Common().StaticCallee() != nil && strings.HasPrefix(call.Common().StaticCallee().Name(), "Subtract") && len(call.Common().Args) == 2 {
-					if call.Common().Args[0] == ssa.Value(phi) {
-						role = "end"
-					} else if call.Common().Args[1] == ssa.Value(phi) {
-						role = "start"
+			// (directly, or in an unexported worker the moment is handed to)
+			var roleOf func(v ssa.Value, depth int) string
+			roleOf = func(v ssa.Value, depth int) string {
+				if v.Referrers() == nil || depth > 2 {
+					return ""
+				}
+				for _, ref := range *v.Referrers() {
+					call, ok := ref.(*ssa.Call)
+					if !ok || call.Common().StaticCallee() == nil {
+						continue
+					}
+					callee := call.Common().StaticCallee()
+					if strings.HasPrefix(callee.Name(), "Subtract") && recvIsNamed(callee, "Solar") && len(call.Common().Args) == 2 {
+						if call.Common().Args[0] == v {
+							return "end"
+						} else if call.Common().Args[1] == v {
+							return "start"
+						}
+					}
+					if isLocalHelper(callee) {
+						for i, a := range call.Common().Args {
+							if a == v && i < len(callee.Params) {
+								if rl := roleOf(callee.Params[i], depth+1); rl != "" {
+									return rl
+								}
+							}
+						}
 					}
 				}
+				return ""
 			}
+			role := roleOf(phi, 0)
 			if role == "" {
 				continue
 			}
@@ -574,7 +596,11 @@ func r12_7(c *Ctx, r *Report) {
 		return nil
 	}
 	n := 0
-	for _, b := range fn.Blocks {
+	var blocks []*ssa.BasicBlock
+	for _, f := range withHelpers(c, fn) {
+		blocks = append(blocks, f.Blocks...) // the subtraction may sit in an unexported worker of computeStart
+	}
+	for _, b := range blocks {
 		for _, ins := range b.Instrs {
 			bo, ok := ins.(*ssa.BinOp)
 			if !ok || bo.Op != token.SUB || !isIntType(bo.Type()) {
